@@ -520,3 +520,25 @@ func FuzzCheck[C any](t *testing.T, prop, sub string, f func(*Ctx, C) error, c C
 	}
 	t.Fatalf("%v", err)
 }
+
+// FuzzSub drives a sub-check's own generator with Go's native coverage-guided fuzzer
+// (rapid.MakeFuzz turns the fuzzer's byte string into the generator's choices), through the same
+// path as a generated case. It is the thorough tier's way to let coverage feedback steer the
+// structured generators; failures are written as replay files of that sub-check.
+func FuzzSub[C any](f *testing.F, prop string, s Sub[C]) {
+	f.Fuzz(rapid.MakeFuzz(func(t *rapid.T) {
+		c := s.Gen(t)
+		ctx := &Ctx{}
+		err := safeCheck(s.Check, ctx, c)
+		if err == nil {
+			return
+		}
+		if dir := os.Getenv("VERIF_FUZZ_OUT"); dir != "" {
+			fuzzFailN++
+			cb, _ := json.Marshal(c)
+			b, _ := json.MarshalIndent(ReplayFile{Property: prop, Sub: s.Name, Error: err.Error(), Case: cb}, "", " ")
+			_ = os.WriteFile(filepath.Join(dir, fmt.Sprintf("fuzzfail-%d-%d.json", os.Getpid(), fuzzFailN)), b, 0o644)
+		}
+		t.Fatalf("%v", err)
+	}))
+}
